@@ -24,7 +24,7 @@ CLAIMED = {
             "Seeded configurations (cipher, base backend, secret, salt, host binding, plaintext, write path, prior stored version); round trip through a second instance by ReadFile and Reader; marker never in stored bytes; two writes differ; then every truncation length and every single-byte flip of the stored bytes (every k-th above 320 bytes), the emptied file, and readers with another secret or salt must all be answered with an error, never data, never a panic, never a stream left open; name-space history through the encrypted view refined against the model.",
             "All truncations and flips of each sampled file are enumerated; files are sampled. crypto/rand stays real."),
     "C06": ("fault_enumeration",
-            "Seeded cases (initial remote tree, 1-25 cache operations on overlapping paths through the cache and its child views, intermediate Commits) run under the simulator (directory copies run a real fsloop); fault-free execution: remote untouched before Commit, remote = model (initial remote + accepted operations applied directly) after; then the final Commit is re-executed once for EVERY remote I/O position x applicable fault kind (op-error, write-error, torn-write, close-error) under the recorded choices of the dry run: the Commit must report the failure and a following fault-free Commit must bring the remote to the model tree. Journal iteration orders inside Commit are seeded choices.",
+            "Seeded cases (initial remote tree, 1-25 cache operations on overlapping paths through the cache and its child views, intermediate Commits) run under the simulator (directory copies run a real fsloop); fault-free execution: remote untouched before Commit, remote = model (initial remote + accepted operations applied directly) after; then the final Commit is re-executed once for EVERY remote I/O position x applicable fault kind (op-error, write-error, torn-write, close-error) under the recorded choices of the dry run: the Commit must report the failure and a following fault-free Commit must bring the remote to the model tree (also after two failed Commits in a row). Journal iteration orders inside Commit are seeded choices.",
             "Every position of the last Commit of each sampled case is faulted; cases themselves are sampled. The model applies an operation only if the cache accepted it; histories are cut where the statement does not define the result."),
     "C07": ("exploration",
             "Same generator as C06 without faults and without Commit: after every mutating cache operation the whole tree seen through the cache (walk through the public interface), queries in several spellings through the cache and its child views, reads and listings are compared with the model (initial remote + accepted operations).",
@@ -33,7 +33,7 @@ CLAIMED = {
             "Seeded search over schedules of the real fsloop producers, consumers and completion goroutine (all locks, wait groups, channel operations and a random subset of statement boundaries are scheduling points), over tree shapes, filters, limits, queue capacities, latencies and one injected listing/callback error; oracle: exactly-once multiset against a model walk, concurrency bound, wait-after-last-callback, termination under a fair tail.",
             "Sampling, not enumeration. Trusted: simrt primitives model sync faithfully; preemption granularity is the statement, not the instruction."),
     "C09": ("exploration",
-            "Seeded schedules of 2-4 clients x 1-6 operations on a tiny shared name space of one memfs; invoke/return stamped with a global event counter; oracle = the statement's clauses: regular register per file (complete values only, no stale read after a completed overwrite), single-writer paths keep the writer's last value, final content is a written value, listings have unique names, no panic / deadlock, termination; happens-before probe on the directory index maps.",
+            "Seeded schedules of 2-4 clients x 1-6 operations (files, streams, directory copies, removals, operations aimed at nodes of the wrong kind; one run in six with a 65-72 KB file) on a tiny shared name space of one memfs; invoke/return stamped with a global event counter; oracle = the statement's clauses: regular register per file (complete values only, no stale read after a completed overwrite), single-writer paths keep the writer's last value, final content is a written value, listings have unique names, no panic / deadlock, termination; happens-before probe on the directory index maps.",
             "Sampling. Full linearizability of the tree is deliberately not demanded (the statement does not make directory copies atomic). Races on plain fields are invisible under serialised execution."),
     "C10": ("exploration",
             "Seeded programs of definitions over 5 names in every registration order, dependency graphs (acyclic, cyclic, self-loops) realised by generated factories that resolve their edges by Get or by tag-driven InjectTo (required / optional), with transient failures and nil results on chosen invocations, followed by 1-20 requests (Get, InjectTo into generated structs, Keys, late definitions); a reference model of the statement predicts every outcome, every instance identity (singleton, explicit beats default) and every factory invocation count; a depth guard turns runaway recursion into a reported event.",
@@ -42,10 +42,10 @@ CLAIMED = {
             "Seeded scope trees (1-6 scopes, depth <= 3, shared and isolated children, tasks, listeners that fail on one close-protocol event) and 2-5 actor scripts (done-task, append-error, kill, stop, exactly one Close per scope) under the seeded scheduler; recording listeners on all eight close-protocol events; oracle over the event log: before-close, exactly one triple, after-close, each once and in order and inside the Close call; the triple starts after every DoneTask and after every child's after-close; rollback / commit by the errors present (racing errors accepted either way); Close returns an error iff the context holds one; shared failure reaches the parent, isolated failure does not, an ended parent stops isolated children by quiescence; a second Close is refused loudly without repeating events.",
             "Sampling. The generated programs respect the documented contract (no mutating call on a scope object after its Close was invoked), enforced by a harness gate."),
     "C12": ("exploration",
-            "Seeded search over schedules of 2-6 actors signalling one scope (plain, shared-context child, isolated child) with AppendError/Kill/Stop/IsDone/Err/Errors, and of child creation+close racing with the end of the parent; oracle: no panic or fatal error, every appended error retained and reported by Err/Wait/Close, done exactly once, isolation of isolated children.",
+            "Seeded search over schedules of 2-6 actors signalling one scope (plain, shared-context child, isolated child) with AppendError/Kill/Stop/IsDone/Err/Errors, and of child creation+close racing with the end of the parent, with 0-2 observers blocked on Done() that read the accessors when woken; oracle: no panic or fatal error, every appended error retained and reported by Err/Wait/Close, done exactly once, isolation of isolated children.",
             "Sampling. Data races on plain fields (the unsynchronised read of the error slice) are outside what serialised execution can observe."),
     "C13": ("exploration",
-            "Sequential overlay histories on parent-child chains refined against a map-with-fall-through model; seeded schedules of 2-5 clients mixing locked read-modify-write sections with plain reads/writes on one data scope, the recorded history (a section is one operation, stamped with a global event counter) checked for linearizability against a sequential map with porcupine; N concurrent callers of the three get-or-create services must obtain one instance; happens-before probe on the data maps.",
+            "Sequential overlay histories on parent-child chains refined against a map-with-fall-through model; seeded schedules of 2-5 clients mixing locked read-modify-write sections with plain reads/writes on one data scope, the recorded history (a section is one operation, stamped with a global event counter) checked for linearizability against a sequential map with porcupine; N concurrent callers of the three get-or-create services must obtain one instance; a 2-3 level chain used by 2-4 tasks with locked sections reaching into descendants or falling through to ancestors (no task blocks for ever, reads attributable to writes at that level or above, own value wins); happens-before probe on the data maps.",
             "Sampling; histories <= 14 operations so the linearizability check stays tractable (timeouts are counted, never reported)."),
     "C14": ("exploration",
             "A complete application (mockup app, bootstrap with terminal, common, container and pipeline modules on memfs) is assembled inside the simulation; generated task DAGs (wait lists incl. unknown names, failing commands, nested pip:run, lock maps, simulated durations) are handed to the real Runner.Run by 1-2 submitters with gaps, each submission in its own child scope (isolated or shared context); probe commands log events; oracle over the event log: start after every prerequisite (and its nested tasks) finished, no body after a failed prerequisite and the task ends failed, body events are a prefix of the script ending at the first failing command, unknown wait names rejected, TasksManager.Wait returns (deadlock detector + fair tail) with an error iff some task failed, write-locked resources never overlap.",
@@ -54,13 +54,13 @@ CLAIMED = {
             "Seeded schedules of 2-6 holders with random lock maps (any read/write mix incl. empty and full) over 4 resource names on the real SharedMutex; interval exclusion checked at every entry; a deterministic independence probe (holder A parked inside, a compatible holder B must enter); any cycle of waiters is reported by the simulator's deadlock detector; the order in which a lock map is walked is a seeded choice.",
             "Sampling. simrt.RWMutex follows Go's writer-preference algorithm, so lock-order and read-recursion deadlocks are detectable."),
     "C16": ("exploration",
-            "The whole application of C14; pip:try issued through the real terminal service with generated bodies (failing command at any position, nested tasks that succeed or fail after a simulated delay) and every subset of success / fail / finally handlers, handlers that themselves fail; oracle over the probe event log: handler iff outcome, finally always, every handler event later than every event of the body and of the tasks it spawned, the surrounding (session) scope holds an error iff a handler failed.",
+            "The whole application of C14; pip:try issued through the real terminal service with generated bodies (failing command at any position, nested tasks that succeed or fail after a simulated delay) and every subset of success / fail / finally handlers, handlers that themselves fail at once or after simulated time, optionally a second try block in the same scope; oracle over the probe event log: handler iff outcome, finally always, every handler event later than every event of the body and of the tasks it spawned, the surrounding (session) scope holds an error iff a handler failed.",
             "Sampling. One known finding (a failing handler cancels the other handlers) is matched by its shape and reported as KNOWN-FINDING; all other clauses stay judged in those runs."),
     "C19": ("exploration",
             "Generated template sets (helpers, layouts, views with define names overlapping across layers and views) in a memfs and request sequences Base / Layout / View for the HTML and the text provider; sequential shape: cached and uncached providers side by side, every name rendered and compared with the layering rule (most specific layer wins, foreign views' and views' definitions invisible where they must be, asking twice agrees); concurrent shape: 2-5 tasks use one cached provider from its first use on under the seeded scheduler, all must get equivalent templates, no panic, and the happens-before probe must see no unsynchronised access to the cache maps.",
             "Sampling. The map probe replaces the Go runtime's own concurrent-map check, which cannot fire under serialised execution; races on plain pointers (the unlocked baseTemplate read) are outside its reach."),
     "C20": ("exploration",
-            "Loader clause only: translation files with prefix-free dotted keys and values over quotes, backslashes, control and non-ASCII characters, written by encoding/json or by the library's emitter into random directory layouts of a memfs (plus decoys and empty directories); fsi18loader.Load runs its real fsloop under the seeded scheduler with MaxJob 1-4, I/O latency and optionally one injected read error; Load returned nil => every key of every file translates to the value the standard JSON decoder yields for the written bytes; an injected fault => error reported or everything loaded; happens-before probe on the translation map.",
+            "Loader clause only: translation files with prefix-free dotted keys and values over quotes, backslashes, control and non-ASCII characters, written by encoding/json or by the library's emitter into random directory layouts of a memfs (plus decoys and empty directories); fsi18loader.Load runs its real fsloop under the seeded scheduler with MaxJob 1-4, I/O latency and optionally one injected read error, optionally a second Load into the same store that also overrides keys; Load returned nil => every key of every file translates to the value the standard JSON decoder yields for the written bytes; an injected fault => error reported or everything loaded; happens-before probe on the translation map.",
             "Sampling. The flatten/rebuild and emitter round-trip clauses are pure functions: exercised only where they lie on the loader path and not claimed (DESIGN.md section 5)."),
 }
 
